@@ -235,10 +235,14 @@ class TreeDriver:
                         continue    # stored here earlier, lives elsewhere now
                     v.home = None
                 ctx.detached.append((real.get(n), True))
-            for layer in mm.layers:
+            for depth, layer in enumerate(mm.layers):
                 for n, h in layer.items():
                     if h.home == (id(mm), n):
                         h.home = None
+                        if depth and mm.visible(n) is not h:
+                            # shadowed in a lower layer: a direct child too
+                            ctx.detached.append((h.obj, False))
+                            ctx.hits['clear_detaches_shadowed_handle'] += 1
             if len(mm.layers) > 1:
                 ctx.hits['clear_layered'] += 1
             ctx.hits['clear'] += 1
@@ -249,14 +253,14 @@ class TreeDriver:
             mm.maps = {}
             mm.layers = [{}]
             ctx.cleared = real
-            for child, _ in ctx.detached:
+            for child, visible in ctx.detached:
                 if child is not None and (child.parent is not None
                                           or child.key is not None):
                     raise Violation(
                         'clear_detaches_children',
                         f'after clear() a former direct child still has '
                         f'parent={child.parent!r} key={child.key!r}',
-                        child=type(child).__name__)
+                        child=type(child).__name__, shadowed=not visible)
             if real.maps or any(len(layer) for layer in real.handles.maps):
                 raise Violation(
                     'clear_leaves_nothing_reachable',
